@@ -420,3 +420,25 @@ Qed.
 Theorem buffered_bad_item_drops_batch :
   forall l, valid_ops l = false -> batch_calls l = [].
 Proof. exact batch_bad. Qed.
+
+(* the same for EVERY way of cutting the queue into batches (the worker takes what GetN
+   returns: up to batchSize items, everything after a reopen with batchSize 1, ...) *)
+Theorem buffered_ks_equiv_batches :
+  forall (cs : list (list bop)) (s : inner) (k : N),
+    Forall (fun c => valid_ops c = true) cs ->
+    kin k (i_run s (flat_map batch_calls cs)) = kin k (i_run s (seq_calls (concat cs))).
+Proof. intros cs s k Hv. rewrite worker_ks by exact Hv. symmetry. apply seq_ks. Qed.
+
+(* as sets of keys *)
+Corollary buffered_keystore_same_set :
+  forall (cs : list (list bop)) (s : inner),
+    Forall (fun c => valid_ops c = true) cs ->
+    forall k, In k (ks (i_run s (flat_map batch_calls cs))) <-> In k (ks (i_run s (seq_calls (concat cs)))).
+Proof.
+  intros cs s Hv k. pose proof (buffered_ks_equiv_batches cs s k Hv) as E. unfold kin in E.
+  assert (M : forall x l, memN x l = true <-> In x l).
+  { intros x l. unfold memN. rewrite existsb_exists. split.
+    - intros [y [Hy Ey]]. apply N.eqb_eq in Ey. subst. exact Hy.
+    - intro H. exists x. split; [exact H|apply N.eqb_refl]. }
+  rewrite <- !M. rewrite E. tauto.
+Qed.
